@@ -509,6 +509,7 @@ class _ServerRun:
         for kind, sidx, payload in self.obs.ev:
             per.setdefault(sidx, []).append((kind, payload))
         self.streams = {}
+        stuck = set()
         for sidx in sorted(per):
             seq = per[sidx]
             kinds = [k for k, _ in seq]
@@ -523,7 +524,14 @@ class _ServerRun:
             if nd == 1 and kinds[-1] != 'disconnect':
                 return 'event-after-disconnect', where
             if nd == 0:
-                return 'no-disconnect', '%s: peer is gone, loop quiescent/bounded (%d iterations) but no disconnect' % (where, self.iters)
+                if self.buffered(sidx):
+                    # The server still holds data for this socket that the kernel did not take within the bound
+                    # (zero window / retransmission timers of a peer with a tiny receive buffer are wall-clock
+                    # matters): its deferred close is legitimately pending, nothing can be concluded.
+                    self.inconclusive = True
+                    stuck.add(sidx)
+                else:
+                    return 'no-disconnect', '%s: peer is gone, loop quiescent/bounded (%d iterations) but no disconnect' % (where, self.iters)
             self.streams[sidx] = b''.join(d for k, d in seq if k == 'read')
         for p in self.peers:
             if p.sidx is None:
@@ -538,8 +546,10 @@ class _ServerRun:
                 while k < min(len(got), len(want)) and got[k] == want[k]:
                     k += 1
                 return 'read-corrupt', '%s peer#%d: read data is not a prefix of what the peer sent (first difference at byte %d, got %d bytes, sent %d)' % (tag, p.n, k, len(got), p.sent)
-            if self.must_be_complete(p) and len(got) != len(want):
+            if self.must_be_complete(p) and p.sidx not in stuck and len(got) != len(want):
                 return 'read-lost', '%s peer#%d: orderly closed connection delivered %d of %d bytes' % (tag, p.n, len(got), p.sent)
+        if stuck:
+            return None       # tables cannot be clean while a deferred close is pending
         if not self.settled:
             return 'no-quiescence', '%s loop not quiescent after %d iterations' % (tag, self.iters)
         t = self.tables
@@ -773,6 +783,9 @@ class _ClientRun:
                 return 'client-disconnected-twice', '%s events=%s: disconnected without a matching connected' % (tag, _abbr(ev))
             if bal > 1:
                 return 'client-connected-twice', '%s events=%s' % (tag, _abbr(ev))
+        if bal != 0 and self.cli._buffer:
+            self.inconclusive = True      # deferred close still waiting for the kernel to take the data
+            return None
         if bal != 0:
             return 'client-no-disconnected', '%s events=%s: peer gone, %d iterations, connected without disconnected' % (tag, _abbr(ev), self.iters)
         if not self.settled:
@@ -829,17 +842,6 @@ class C12(Prop):
         for r, v in zip(runs, verdicts):
             if v is not None:
                 return Result(False, v[0], v[1], classes=sorted(classes))
-        if mode == 'server':
-            # differential: connections that must be complete deliver the same stream under all pollers
-            base = runs[0]
-            for r in runs[1:]:
-                for p0, p1 in zip(base.peers, r.peers):
-                    if p0.sidx is None or p1.sidx is None:
-                        continue
-                    if base.must_be_complete(p0) and r.must_be_complete(p1):
-                        if base.streams.get(p0.sidx) != r.streams.get(p1.sidx):
-                            return Result(False, 'poller-divergence', 'peer#%d: %s and %s delivered different streams' % (
-                                p0.n, base.pname, r.pname), classes=sorted(classes))
         hard = 'abort' in classes or 'halfclose' in classes
         late = all(r.late_done for r in runs)
         if any(r.inconclusive for r in runs):
